@@ -219,7 +219,7 @@ def substitute_terminals(tree, **params):
         substitute_terminals.terminals = dict()
         with io.open(substitute_terminals.fn) as tf:
             for line in tf:
-                line = line.strip().split()
+                line = misc.split_fields(line)
                 # probably no POS tag?
                 if len(line) == 3:
                     line.append(None)
@@ -288,7 +288,7 @@ def insert_terminals(tree, **params):
         insert_terminals.terminals = dict()
         with io.open(insert_terminals.fn) as tf:
             for line in tf:
-                line = line.strip().split()
+                line = misc.split_fields(line)
                 if not int(line[0]) in insert_terminals.terminals:
                     insert_terminals.terminals[int(line[0])] = {}
                 if not int(line[1]) in insert_terminals.terminals[int(line[0])]:
